@@ -110,7 +110,7 @@ func (s *Server) HandleIDPInitiated(w http.ResponseWriter, r *http.Request) {
 		}
 	}
 
-	s.idpConfigMu.RLock()
-	defer s.idpConfigMu.RUnlock()
+	// ServeIDPInitiated looks the service provider up through GetServiceProvider, which takes
+	// idpConfigMu itself; holding the read lock here as well deadlocks behind a pending writer.
 	s.IDP.ServeIDPInitiated(w, r, shortcut.ServiceProviderID, relayState)
 }
